@@ -14,7 +14,8 @@ RULE = ("Hypothesis-generated (cost table T x K, beta) pairs: class E = multiple
         "tolerance 0, heavy ties from 3-value pools), class F = generic finite doubles over 1e-300..1e300/T with "
         "row-wise scale spreads and 1e16-offset near ties; beta scalar or length-T vector (0, tiny, huge); shapes tiny "
         "(K^T <= 6e4, brute force), small, long (T<=400,K<=12), wide (T<=3, K 200..300); run with the kernel "
-        "JIT-compiled and interpreted. Oracle: exact integer-scaled brute force / independent forward Viterbi; the "
+        "JIT-compiled and interpreted; one exact case in eight is handed over as a float32 / int64 / int32 table (values exactly "
+        "representable) with a possibly fractional beta. Oracle: exact integer-scaled brute force / independent forward Viterbi; the "
         "exact cost of the returned sequence must be <= optimum (+ 8 T eps (sum_i max_k|c_ik| + sum beta) for class F), "
         "the reported cost must equal the exact cost of the returned sequence, labels integral in [0,K). "
         "Non-trivial = T>=2, K>=2 and (the optimum differs from sum_i min_k c_ik, i.e. beta binds, or the returned "
@@ -112,7 +113,12 @@ def execute(case, t):
     cost = np.asarray(case["cost"])
     beta = case["beta"]
     layout = case.get("layout", "C")
-    cost_arg = _apply_layout(cost, layout)
+    cost_arg = cost
+    if case.get("dtype"):
+        cost_arg = cost.astype(case["dtype"])          # exact: the generator made every value representable in that dtype
+        if not np.array_equal(cost_arg.astype(np.float64), cost):
+            raise RuntimeError("harness bug: dtype conversion of the table is not exact")
+    cost_arg = _apply_layout(cost_arg, layout)
     beta_arg = np.array(beta, dtype=np.float64) if np.ndim(beta) else float(beta)
     T, K = cost.shape
     try:
@@ -125,6 +131,8 @@ def execute(case, t):
     t.cls("beta_vector" if np.ndim(beta) else "beta_scalar")
     if layout != "C":
         t.cls(f"layout_{layout}")
+    if case.get("dtype"):
+        t.cls(f"table_dtype_{case['dtype']}")
     if T == 1:
         t.cls("T=1")
     if K == 1:
@@ -180,7 +188,7 @@ def fuzz_seeds():
 SUBCHECKS = [
     SubCheck(
         name="kernel_vs_exact_optimum",
-        strategy=lambda: gen.cost_case(),
+        strategy=lambda: gen.cost_case(dtypes=("float32", "int64", "int32")),
         execute=execute,
         pinned=_layout_cases,
         budget={"quick": 3000, "thorough": 160000},
